@@ -77,6 +77,11 @@ var announcePool = [][]string{
 	{"x-webkit-deflate-frame"},
 	{"permessage-deflate2; server_no_context_takeover; client_no_context_takeover"},
 	{`permessage-deflate; server_no_context_takeover="1"; client_no_context_takeover`},
+	// the two parameters spread over two announcements of the extension: no
+	// single one carries both
+	{"permessage-deflate; server_no_context_takeover, permessage-deflate; client_no_context_takeover"},
+	{"permessage-deflate; client_no_context_takeover", "permessage-deflate; server_no_context_takeover"},
+	{"permessage-deflate, foo; server_no_context_takeover; client_no_context_takeover"},
 }
 
 // genExtLines composes an extension header: 1-4 well-formed elements (at most
